@@ -107,3 +107,22 @@ Proof.
   rewrite (proj2 (Nat.ltb_lt (length es) (S (length es)))) by lia.
   rewrite (proj2 (Nat.ltb_lt (length es) (Z.to_nat n))) by lia. reflexivity.
 Qed.
+
+(* ---------- VM reuse: vm.Reset, then SetPriceGetter / SetGasLimit / LoadScript ----------
+   The node executes all transactions of a block on one VM.  [vm_reset] clears exactly what vm.Reset clears: invocation
+   stack, evaluation stack, the uncaught-exception register, the item counter, the gas consumed, the gas limit and the
+   price getter (the values the old stacks referred to become garbage: the heap is empty again).  [vm_prepare] is what
+   the caller does next; it touches nothing but the price factor, the limit and the script - every other register is taken
+   over from the state it is given.  So [reset_is_init] says: after Reset every register [run] reads has its initial value. *)
+Definition vm_reset (s : state) : state :=
+  mkState (empty_frame 0 (-1)) (mkScript [] (sc_sid (s_sc s)) None [] false) [] [] [] 0 None 0 0 0.
+Definition vm_prepare (s : state) (prog : list Z) (sid : N) (base limit : Z) : state :=
+  mkState (mkFrame 0 (f_local (s_fr s)) (f_args (s_fr s)) (f_try (s_fr s)) (-1))
+          (mkScript prog sid (sc_static (s_sc s)) (sc_es (s_sc s)) false)
+          (s_frames s) (s_outer s) (s_heap s) (s_refs s) (s_exc s) (s_gas s) limit base.
+Theorem reset_is_init s prog sid base limit :
+  vm_prepare (vm_reset s) prog sid base limit = init_state prog sid base limit.
+Proof. reflexivity. Qed.
+Theorem run_after_reset s prog sid base limit n :
+  run n (vm_prepare (vm_reset s) prog sid base limit) = run n (init_state prog sid base limit).
+Proof. rewrite reset_is_init. reflexivity. Qed.
